@@ -2,7 +2,7 @@
 import base64, os
 from props.filegen import *
 
-THEOREMS = ["C15_every_operation_restores_the_process_state", "C15_history_independence", "C15_scanner_is_reinitialised"]
+THEOREMS = ["C15_every_operation_restores_the_process_state", "C15_history_independence", "C15_scanner_is_reinitialised", "C15_pipeline_leaves_counter_zero"]
 
 
 def b64(k):
